@@ -124,6 +124,18 @@ func (x *fnCtx) rederive(st *State, fr *Frame, in ssa.Instruction, v ssa.Value) 
 		if b, ok := i.Call.Value.(*ssa.Builtin); ok && (b.Name() == "len" || b.Name() == "cap") {
 			return x.builtinLenCap(st, fr, b.Name(), i.Call.Args[0], i.Type())
 		}
+		// the result of a call bound once outside all loops is the stable ghost symbol
+		if fr.isTop && x.con != nil {
+			for _, td := range x.con.Traces {
+				if td.As != "" && matchCallee(td.Pattern, calleeName(&i.Call)) && x.bindOutsideLoops(td) {
+					out := freshVal(v.Type(), "ghost."+x.short+"."+td.As, true)
+					for _, f := range rangeFacts(out) {
+						st.assume(f)
+					}
+					return out
+				}
+			}
+		}
 	case *ssa.MakeSlice:
 		ln := x.getVal(st, fr, i.Len).L[0]
 		cp := x.getVal(st, fr, i.Cap).L[0]
@@ -522,7 +534,7 @@ func (x *fnCtx) alloc(st *State, v *ssa.Alloc) *Val {
 		return out
 	}
 	x.store(st, a, zeroVal(el))
-	if !v.Heap {
+	{
 		// record the heap components holding this stack object
 		var names []string
 		switch a.Kind {
@@ -549,7 +561,7 @@ func (x *fnCtx) makeSlice(st *State, fr *Frame, v *ssa.MakeSlice) *Val {
 	if x.eng.cfg.Layers["safety"] {
 		x.addVC(st, x.curShort(fr), "makeslice", x.ord(fr, v), "", And(Le(IntLit(0), ln), Le(ln, cp), Le(cp, BigLit("4611686018427387904"))), "make: 0 <= len <= cap", x.eng.posStr(v.Pos()))
 	}
-	st.assume(And(Le(IntLit(0), ln), Le(ln, cp)))
+	x.assumeSafe(st, And(Le(IntLit(0), ln), Le(ln, cp)))
 	r := x.newRef(st, "mkslice")
 	el := v.Type().Underlying().(*types.Slice).Elem()
 	ez := zeroVal(el)
@@ -608,7 +620,7 @@ func (x *fnCtx) checkNil(st *State, fr *Frame, in ssa.Instruction, p *Val, what 
 		return
 	}
 	x.addVC(st, x.curShort(fr), "nil", x.ord(fr, in), "", Ne(r, IntLit(0)), "nil dereference ("+what+")", x.eng.posStr(in.Pos()))
-	st.assume(Ne(r, IntLit(0)))
+	x.assumeSafe(st, Ne(r, IntLit(0)))
 }
 
 func isPointerToArray(t types.Type) bool {
@@ -691,7 +703,7 @@ func (x *fnCtx) indexAddr(st *State, fr *Frame, v *ssa.IndexAddr, rederive bool)
 			x.addVC(st, x.curShort(fr), "index", x.ord(fr, v), "", And(Le(IntLit(0), idx), Lt(idx, base.Len())), "index in range", x.eng.posStr(v.Pos()))
 		}
 		if !rederive {
-			st.assume(And(Le(IntLit(0), idx), Lt(idx, base.Len())))
+			x.assumeSafe(st, And(Le(IntLit(0), idx), Lt(idx, base.Len())))
 		}
 		a := &Addr{Kind: AElem, Base: base.Arr(), Idx: Add(base.Off(), idx), Elem: et, Owner: base.Src}
 		return &Val{T: v.Type(), L: []*Term{App("eaddr", SInt, a.Base, a.Idx)}, A: a}
@@ -702,7 +714,7 @@ func (x *fnCtx) indexAddr(st *State, fr *Frame, v *ssa.IndexAddr, rederive bool)
 			x.addVC(st, x.curShort(fr), "index", x.ord(fr, v), "", And(Le(IntLit(0), idx), Lt(idx, IntLit(arr.Len()))), "array index in range", x.eng.posStr(v.Pos()))
 		}
 		if !rederive {
-			st.assume(And(Le(IntLit(0), idx), Lt(idx, IntLit(arr.Len()))))
+			x.assumeSafe(st, And(Le(IntLit(0), idx), Lt(idx, IntLit(arr.Len()))))
 		}
 		a := &Addr{Kind: AElem, Base: base.L[0], Idx: idx, Elem: et}
 		return &Val{T: v.Type(), L: []*Term{App("eaddr", SInt, a.Base, a.Idx)}, A: a}
@@ -719,7 +731,7 @@ func (x *fnCtx) indexVal(st *State, fr *Frame, v *ssa.Index) *Val {
 		if x.eng.cfg.Layers["safety"] {
 			x.addVC(st, x.curShort(fr), "index", x.ord(fr, v), "", And(Le(IntLit(0), idx), Lt(idx, SLen(s))), "string index in range", x.eng.posStr(v.Pos()))
 		}
-		st.assume(And(Le(IntLit(0), idx), Lt(idx, SLen(s))))
+		x.assumeSafe(st, And(Le(IntLit(0), idx), Lt(idx, SLen(s))))
 		return scalar(v.Type(), SAt(s, idx))
 	}
 	x.eng.logAbs("%s: index of array value havoced", x.short)
@@ -745,7 +757,7 @@ func (x *fnCtx) sliceOp(st *State, fr *Frame, v *ssa.Slice, rederive bool) *Val 
 			if x.eng.cfg.Layers["safety"] {
 				x.addVC(st, x.curShort(fr), "slice", x.ord(fr, v), "", goal, desc, x.eng.posStr(v.Pos()))
 			}
-			st.assume(goal)
+			x.assumeSafe(st, goal)
 		}
 	}
 	switch bt := base.T.Underlying().(type) {
@@ -935,7 +947,7 @@ func (x *fnCtx) binop(st *State, fr *Frame, v *ssa.BinOp, rederive bool) *Val {
 			if x.eng.cfg.Layers["safety"] {
 				x.addVC(st, x.curShort(fr), "div", x.ord(fr, v), "", Ne(bt, IntLit(0)), "division by zero", x.eng.posStr(v.Pos()))
 			}
-			st.assume(Ne(bt, IntLit(0)))
+			x.assumeSafe(st, Ne(bt, IntLit(0)))
 		}
 		// Go truncates toward zero; SMT div is floor for positive divisor. Exact for non-negative operands.
 		q := Fresh("quo", SInt)
@@ -1203,7 +1215,7 @@ func (x *fnCtx) typeAssert(st *State, fr *Frame, v *ssa.TypeAssert) *Val {
 		if x.eng.cfg.Layers["safety"] {
 			x.addVC(st, x.curShort(fr), "typeassert", x.ord(fr, v), "", ok, "interface conversion", x.eng.posStr(v.Pos()))
 		}
-		st.assume(ok)
+		x.assumeSafe(st, ok)
 		return res
 	}
 	tag := IntLit(typeTag(at))
@@ -1221,7 +1233,7 @@ func (x *fnCtx) typeAssert(st *State, fr *Frame, v *ssa.TypeAssert) *Val {
 	if x.eng.cfg.Layers["safety"] {
 		x.addVC(st, x.curShort(fr), "typeassert", x.ord(fr, v), "", ok, "type assertion to "+typeStr(at), x.eng.posStr(v.Pos()))
 	}
-	st.assume(ok)
+	x.assumeSafe(st, ok)
 	return res
 }
 
@@ -1290,7 +1302,7 @@ func (x *fnCtx) lookup(st *State, fr *Frame, v *ssa.Lookup) *Val {
 		if x.eng.cfg.Layers["safety"] {
 			x.addVC(st, x.curShort(fr), "index", x.ord(fr, v), "", And(Le(IntLit(0), idx), Lt(idx, SLen(s))), "string index in range", x.eng.posStr(v.Pos()))
 		}
-		st.assume(And(Le(IntLit(0), idx), Lt(idx, SLen(s))))
+		x.assumeSafe(st, And(Le(IntLit(0), idx), Lt(idx, SLen(s))))
 		return scalar(v.Type(), SAt(s, idx))
 	}
 	mt := m.T.Underlying().(*types.Map)
@@ -1327,7 +1339,7 @@ func (x *fnCtx) mapUpdate(st *State, fr *Frame, v *ssa.MapUpdate) {
 	if x.eng.cfg.Layers["safety"] {
 		x.addVC(st, x.curShort(fr), "nilmap", x.ord(fr, v), "", Ne(m.L[0], IntLit(0)), "assignment to entry in nil map", x.eng.posStr(v.Pos()))
 	}
-	st.assume(Ne(m.L[0], IntLit(0)))
+	x.assumeSafe(st, Ne(m.L[0], IntLit(0)))
 	ks, ok := mapSorts(mt)
 	x.lockCheckMap(st, fr, v, m, true)
 	if !ok {
@@ -1549,4 +1561,17 @@ func allocOf(fr *Frame, v *Val) (*ssa.Alloc, bool) {
 		}
 	}
 	return nil, false
+}
+
+// assumeSafe: after a safety obligation the checked condition is assumed (assert-then-assume).
+// When the safety layer is off for this function nothing was asserted, so nothing is assumed:
+// the path on which the instruction would panic stays visible to the other layers.
+func (x *fnCtx) assumeSafe(st *State, c *Term) {
+	if !x.eng.cfg.Layers["safety"] {
+		return
+	}
+	if x.con != nil && x.con.OnlyLayers != nil && !x.con.OnlyLayers["safety"] {
+		return
+	}
+	st.assume(c)
 }
